@@ -71,6 +71,11 @@ func loadRootCode(cc *compiler.Code, globals map[string]object.Object) *code {
 	for i, name := range globalNames {
 		if value, found := globals[name]; found {
 			c.Globals[i] = value
+		} else {
+			// A variable the script has not assigned yet. It stays
+			// unassigned when the statement that declares it fails, and the
+			// pieces that follow (in a REPL) can still name it.
+			c.Globals[i] = object.Nil
 		}
 	}
 	return c
